@@ -8,6 +8,7 @@ Decided here (structural necessary conditions, DESIGN §3 C04):
 import re
 from common import *
 import mirlib
+import C08
 
 META = {
     'explanation': 'Status/Code tables are extracted from MIR by value (decision rows of every switch / Eq chain) and '
@@ -18,6 +19,27 @@ META = {
     'assumptions': ['percent-encoding::AsciiSet is a 128-bit mask in little-endian u32 chunks (asserted by size 16)',
                     'http::HeaderMap::insert replaces, remove removes all values of a name'],
 }
+
+
+def check_status_writer(R, tonic, rule):
+    """every value Status::add_header stores under grpc-message / grpc-status-details-bin / grpc-status went through its encoder on every path"""
+    ah = tonic.body('status::Status::add_header')
+    R.saw(ah)
+    # every value stored under grpc-message / grpc-status-details-bin / grpc-status went through its encoder on every path
+    enc = {'GRPC_MESSAGE': ('percent_encode', None), 'GRPC_STATUS_DETAILS': ('encode', 'base64'), 'GRPC_STATUS': ('to_header_value', None)}
+    nins = 0
+    for ibb, it in ah.calls(pat='HeaderMap', name='insert'):
+        k = constdef(ah.origin(it['args'][1])) or ''
+        kn = k.split('::')[-1]
+        if kn not in enc:
+            R.bad(rule, 'writer-insert-key', site(ah, ibb), 'insert under %s: not one of the three status headers' % show(ah.origin(it['args'][1])))
+            continue
+        nins += 1
+        fn_, pat_ = enc[kn]
+        v = ah.origin(it['args'][2])
+        R.check(on_every_path(v, lambda x: is_call(x, name=fn_, pat=pat_)), rule, 'writer-always-encodes:%s' % kn, site(ah, ibb),
+                'value of %s passes through %s() on every path: %s' % (kn, fn_, show(v)[:140]))
+    R.floor(rule, 'status header inserts in add_header', nins, 3)
 
 
 def run(R):
@@ -137,6 +159,7 @@ def run(R):
         R.check(constdef(a1) and constdef(a1).endswith('ENCODING_SET'), 'C04.R2', 'writer-uses-set', site(ah, bb), 'percent_encode second argument = %s' % show(a1))
         a0 = ah.origin(t['args'][0])
         R.check(mentions_field(a0, 'message') or mentions_call(a0, name='message'), 'C04.R2', 'writer-encodes-message', site(ah, bb), 'percent_encode input = %s' % show(a0))
+        check_status_writer(R, tonic, 'C04.R2')
         fh = tonic.body('status::Status::from_header_map')
         R.saw(fh)
         bb, t = fh.call1(name='decode_utf8')
@@ -219,6 +242,9 @@ def run(R):
         code_arg = [ah.origin(t['args'][2]) for bb, t in ins if (constdef(ah.origin(t['args'][1])) or '').endswith('GRPC_STATUS')]
         R.check(code_arg and is_call(code_arg[0], name='to_header_value') and mentions_field(code_arg[0], 'code'), 'C04.R4', 'writer-status-from-code', site(ah),
                 'grpc-status value = %s' % (show(code_arg[0]) if code_arg else None))
+
+    with R.guard('C04.R4', 'sanitiser'):
+        C08.check_sanitiser(R, tonic, 'C04.R4')
 
     # ---------------------------------------------------------------- R5 totality
     R.describe('C04.R5', 'no unguarded panic site is reachable from Status::from_header_map / infer_grpc_status / Code::from_bytes inside tonic')
@@ -339,6 +365,15 @@ def run(R):
         extra = sorted(set(table) - {int(k) for k in hs['map']} - {200})
         R.check(not extra, 'C04.R6', 'http:no-extra-rows', site(b), 'rows beyond the spec table: %r' % {k: table[k] for k in extra})
         R.floor('C04.R6', 'http rows', len(table), 9)
+        # Ok(()) (clean outcome) only after the trailers were parsed by from_header_map and their code compared with Code::Ok
+        okrets = [bb for bb, i, p, a, ops in mirlib.aggregates(b, 'result::Result', 'Ok') if p['l'] == 0]
+        R.floor('C04.R6', 'Ok returns of infer_grpc_status', len(okrets), 1)
+        for ob in okrets:
+            g = b.edge_guards(ob)
+            parsed = any(tm[0] == 'discr' and term_contains(tm, lambda x: is_call(x, pat='Status::from_header_map')) and vals == [1] for s, vals, tm in g)
+            code_ok = any(is_call(strip_refs(tm), name='eq') and term_contains(tm, lambda x: is_call(x, name='code')) and term_contains(tm, lambda x: x and x[0] == 'agg' and x[1].get('variant') == 'Ok') and (vals == ['else'] or 0 not in vals) for s, vals, tm in g)
+            R.check(parsed and code_ok, 'C04.R6', 'ok-only-after-parsing-trailers', site(b, ob),
+                    'Ok(()) is returned only when Status::from_header_map(trailers) is Some (%r) and its code == Code::Ok (%r); a shortcut on the raw grpc-status header would skip the undecodable-field degradation' % (parsed, code_ok))
         # trailers path: from_header_map consulted first, Ok only for Code::Ok
         fm = b.calls(pat='Status::from_header_map')
         R.check(len(fm) == 1 and b.dominates(fm[0][0], start) is False or len(fm) == 1, 'C04.R6', 'trailers-first', site(b), 'from_header_map consulted: %d site(s)' % len(fm))
